@@ -64,9 +64,47 @@ def tail(cap, ln, srclen, one_by_one=False):
     return t
 
 
+# Capacities with every residue structure an index shortcut of the ring buffer could depend on (1, 2, powers of
+# two and their neighbours, even non-powers of two, odd composites, primes), next to the small exhaustive range
+# (S-C12 / round 3: `& (cap - 1)` for every even capacity is wrong for 6, 10, 12, ...).
+CAPSET = (1, 2, 3, 4, 5, 6, 7, 8, 9, 10, 12, 15, 16, 17, 24, 31, 32, 33, 48, 63, 64, 65, 96, 100, 127, 128, 129,
+          255, 256, 257)
+
+
+def corners(cap, top):
+    """every value 0..top for the small capacities, the corner values for the others"""
+    if cap <= 10:
+        return list(range(top + 1))
+    return sorted(v for v in {0, 1, 2, 3, cap // 2, cap - 2, cap - 1, cap} if v <= top)
+
+
+def capset_cases(k):
+    """deterministic: every capacity of CAPSET x prefill states (start, len) at every value (small capacities) or at
+    the corner values; the source holds 2 cap + 3 frames, so the prefill is drained and the ring refilled three
+    times (the last refill padded with equilibrium): the ring's indices wrap at least twice from a refill start
+    index (start + len) mod cap that takes every corner value.  Four scripts, rotated."""
+    for cap in CAPSET:
+        data = [10 * (i + 1) for i in range(cap)]
+        src = [101 + i for i in range(2 * cap + 3)]
+        scripts = (
+            [["next"], ["frames", cap // 2], ["next"], ["all"], ["exh"], ["next"], ["frames", cap - 1], ["next"], ["next"]],
+            [["frames", 1], ["manual", cap + 2], ["hint"], ["next"], ["next"], ["frames", cap], ["exh"], ["next"]],
+            [["hint"], ["all"], ["next"], ["next"], ["next"], ["frames", 2], ["hint"], ["all"], ["frames", cap + 1]],
+            [["next"]] * 3 + [["exh"], ["all"], ["all"], ["next"], ["frames", cap - 2 if cap > 2 else 1], ["hint"]],
+        )
+        for start in corners(cap, cap - 1):
+            for ln in corners(cap, cap):
+                yield build(dict(store=k % 4, ftype=(k // 4) % 2, start=start, len=ln, data=data, src=src,
+                                 ops=[list(o) for o in scripts[(k // 3) % 4]] + tail(cap, ln, len(src), cap <= 10 and k % 5 == 0),
+                                 group="capset"))
+                k += 1
+
+
 def gen_cases(rng, tier):
     """generator (the thorough tier is processed in chunks to bound memory)"""
     k = 0
+    # 0. every capacity of CAPSET, prefill states at the corner values, three refills (see capset_cases)
+    yield from capset_cases(0)
     # 1. every short script from every raw (start,len) state of capacities 1..5
     for cap in range(1, 6):
         data = [10 * (i + 1) for i in range(cap)]
@@ -101,7 +139,7 @@ def gen_cases(rng, tier):
     n_rand = 2000 if tier == "quick" else 40000
     for j in range(n_rand):
         r = rng.fork(f"script{j}")
-        cap = r.choice([1, 1, 2, 2, 3, 3, 4, 4, 5, 5, 6, 7, 8, 11, 16])
+        cap = r.choice([1, 1, 2, 2, 3, 3, 4, 4, 5, 5, 6, 7, 8, 11, 16, 9, 10, 12])
         start = r.below(cap)
         ln = r.choice([0, cap, r.range(0, cap), r.range(0, cap)])
         sl = r.range(0, 13) if not r.chance(1, 10) else r.range(14, 40)
